@@ -3,7 +3,7 @@
 //! (derive / commit determinism, bulletproof create / verify / rewind), and the transaction /
 //! coinbase builder.
 //!
-//! modes (argv[1]): codec | arith | crypto | build | viewkey | history | seeds | hasher
+//! modes (argv[1]): codec | arith | crypto | build | viewkey | history | seeds | hasher | sigs
 use std::convert::TryFrom;
 use std::panic::AssertUnwindSafe;
 
@@ -2157,6 +2157,232 @@ fn seeds(out: &mut Out, rng: &mut Rng, thorough: bool) {
 }
 
 // ---------------------------------------------------------------------------------------------
+// sigs: Keychain::sign / sign_with_blinding, mask_master_key, and the aggsig functions
+// (single signer, signer by key id, 2..4-party partial signatures)
+// ---------------------------------------------------------------------------------------------
+
+fn sig_scalar(rng: &mut Rng, secp: &Secp256k1) -> SecretKey {
+	loop {
+		if let Ok(k) = SecretKey::from_slice(secp, &rng.bytes(32)) {
+			return k;
+		}
+	}
+}
+
+/// one observation: `keys sig <variant> <n>` => true | false | err.  Variants starting with `ok-`
+/// are fixed by the property (a signature made with a key verifies under that key; masking twice
+/// restores the keychain): spec comparison.  `bad-` variants are the negative controls (another
+/// key, another message, a missing / foreign partial signature): they must NOT verify.
+fn sig_line(out: &mut Out, stats: &mut std::collections::BTreeMap<String, (u64, u64)>, variant: &str, n: u64, r: Result<bool, String>) {
+	let rs = match &r {
+		Ok(true) => "true".to_string(),
+		Ok(false) => "false".to_string(),
+		Err(_) => "err".to_string(),
+	};
+	out.line(&format!("keys sig {} {}", variant, n), &rs);
+	let e = stats.entry(variant.to_string()).or_insert((0, 0));
+	e.0 += 1;
+	let want = if variant.starts_with("ok-") { "true" } else { "false" };
+	if rs != want {
+		e.1 += 1;
+		let what = if variant.starts_with("ok-") { "an honest signature / restored key does not verify" } else { "a signature verifies under the wrong key / message / signer set" };
+		out.raw(&format!("#ORACLE-FAIL C20 sigs {} case {}: {}: got {} ({:?})", variant, n, what, rs, r.err()));
+	}
+}
+
+fn sigs(out: &mut Out, rng: &mut Rng, thorough: bool) {
+	use grin_util::secp::key::PublicKey;
+	use grin_util::secp::Message;
+	let mut stats: std::collections::BTreeMap<String, (u64, u64)> = std::collections::BTreeMap::new();
+	let nseeds = if thorough { 6 } else { 2 };
+	let ncase = if thorough { 400 } else { 120 };
+	let mut n = 0u64;
+	for _ in 0..nseeds {
+		let seed = rng.bytes(32);
+		let kc = ExtKeychain::from_seed(&seed, false).unwrap();
+		let secp = kc.secp();
+		for _ in 0..ncase {
+			n += 1;
+			let msg = Message::from_slice(&rng.bytes(32)).unwrap();
+			let msg2 = Message::from_slice(&rng.bytes(32)).unwrap();
+			let id = if rng.chance(1, 9) { Identifier::from_bytes(&{ let mut b = rand_id(rng, 4).to_bytes().to_vec(); b[0] = deep_depth(rng); b }) } else { rand_id_any(rng) };
+			// another KEY, not just another identifier: the key is named by the depth and the first
+			// `depth` words only (unused trailing words and a depth byte above 4 do not matter)
+			let used = |i: &Identifier| -> Vec<u8> {
+				let b = i.to_bytes();
+				let d = std::cmp::min(b[0], 4) as usize;
+				let mut v = vec![d as u8];
+				v.extend_from_slice(&b[1..1 + 4 * d]);
+				v
+			};
+			let id2 = loop {
+				let x = rand_id_any(rng);
+				if used(&x) != used(&id) {
+					break x;
+				}
+			};
+			let amount = rand_amount(rng);
+			let sw = *rng.pick(&SWITCHES);
+			// ---- Keychain::sign: ECDSA with the derived key
+			{
+				let sk = kc.derive_key(amount, &id, sw).unwrap();
+				let pk = PublicKey::from_secret_key(secp, &sk).unwrap();
+				let sk2 = kc.derive_key(amount, &id2, sw).unwrap();
+				let pk2 = PublicKey::from_secret_key(secp, &sk2).unwrap();
+				match kc.sign(&msg, amount, &id, sw) {
+					Ok(sig) => {
+						sig_line(out, &mut stats, "ok-ksign-own-key", n, Ok(secp.verify(&msg, &sig, &pk).is_ok()));
+						sig_line(out, &mut stats, "ok-ksign-deterministic", n, kc.sign(&msg, amount, &id, sw).map(|s2| s2 == sig).map_err(|e| format!("{:?}", e)));
+						sig_line(out, &mut stats, "bad-ksign-other-id", n, Ok(secp.verify(&msg, &sig, &pk2).is_ok()));
+						sig_line(out, &mut stats, "bad-ksign-other-msg", n, Ok(secp.verify(&msg2, &sig, &pk).is_ok()));
+						// the other switch mode names another key (Regular tweaks the derived key)
+						let osw = if sw == SwitchCommitmentType::None { SwitchCommitmentType::Regular } else { SwitchCommitmentType::None };
+						let osk = kc.derive_key(amount, &id, osw).unwrap();
+						let opk = PublicKey::from_secret_key(secp, &osk).unwrap();
+						sig_line(out, &mut stats, "bad-ksign-other-switch", n, Ok(secp.verify(&msg, &sig, &opk).is_ok()));
+					}
+					Err(e) => sig_line(out, &mut stats, "ok-ksign-own-key", n, Err(format!("{:?}", e))),
+				}
+				// sign_with_blinding: the blinding factor is the key
+				let bf = BlindingFactor::from_secret_key(sk.clone());
+				match kc.sign_with_blinding(&msg, &bf) {
+					Ok(sig) => {
+						sig_line(out, &mut stats, "ok-ksign-blinding", n, Ok(secp.verify(&msg, &sig, &pk).is_ok()));
+						sig_line(out, &mut stats, "ok-ksign-blinding-is-sign", n, kc.sign(&msg, amount, &id, sw).map(|s2| s2 == sig).map_err(|e| format!("{:?}", e)));
+					}
+					Err(e) => sig_line(out, &mut stats, "ok-ksign-blinding", n, Err(format!("{:?}", e))),
+				}
+				if n % 16 == 0 {
+					// the zero blinding factor: BlindingFactor::secret_key hands out ZERO_KEY and
+					// Secp256k1::sign asserts on it -> a panic, not an Err (observation, see report)
+					let z = catch(AssertUnwindSafe(|| kc.sign_with_blinding(&msg, &BlindingFactor::zero()).is_ok()));
+					let r = match z {
+						Ok(true) => "true",
+						Ok(false) => "err",
+						Err(_) => "panic",
+					};
+					out.line(&format!("keys sigzero ksign-blinding {}", n), r);
+					let za = catch(AssertUnwindSafe(|| aggsig::sign_with_blinding(secp, &msg, &BlindingFactor::zero(), None).is_ok()));
+					let r = match za {
+						Ok(true) => "true",
+						Ok(false) => "err",
+						Err(_) => "panic",
+					};
+					out.line(&format!("keys sigzero aggsig-blinding {}", n), r);
+				}
+			}
+			// ---- mask_master_key: byte-wise XOR of the master secret; twice = identity
+			if n % 4 == 0 {
+				let mask = sig_scalar(rng, secp);
+				let mut m = kc.clone();
+				let before = m.master.secret_key.0;
+				m.mask_master_key(&mask).unwrap();
+				out.line(&format!("keys mask {} {}", hex(&before), hex(&mask.0)), &hex(&m.master.secret_key.0));
+				let masked_differs = m.master.secret_key.0 != before;
+				m.mask_master_key(&mask).unwrap();
+				let restored = m.master.secret_key.0 == before
+					&& m.derive_key(amount, &id, sw).ok().map(|k| k.0) == kc.derive_key(amount, &id, sw).ok().map(|k| k.0)
+					&& m.commit(amount, &id, sw).ok() == kc.commit(amount, &id, sw).ok();
+				sig_line(out, &mut stats, "ok-mask-twice-restores", n, Ok(restored && masked_differs));
+			}
+			// ---- aggsig, one signer
+			{
+				let sk = sig_scalar(rng, secp);
+				let pk = PublicKey::from_secret_key(secp, &sk).unwrap();
+				let other = PublicKey::from_secret_key(secp, &sig_scalar(rng, secp)).unwrap();
+				let nonce = sig_scalar(rng, secp);
+				let with_nonce = rng.chance(1, 2);
+				match aggsig::sign_single(secp, &msg, &sk, if with_nonce { Some(&nonce) } else { None }, Some(&pk)) {
+					Ok(sig) => {
+						sig_line(out, &mut stats, "ok-single", n, Ok(aggsig::verify_single(secp, &sig, &msg, None, &pk, Some(&pk), false)));
+						sig_line(out, &mut stats, "ok-single-completed", n, Ok(aggsig::verify_completed_sig(secp, &sig, &pk, Some(&pk), &msg).is_ok()));
+						sig_line(out, &mut stats, "bad-single-other-key", n, Ok(aggsig::verify_single(secp, &sig, &msg, None, &other, Some(&other), false)));
+						sig_line(out, &mut stats, "bad-single-other-msg", n, Ok(aggsig::verify_single(secp, &sig, &msg2, None, &pk, Some(&pk), false)));
+						sig_line(out, &mut stats, "bad-single-other-sum", n, Ok(aggsig::verify_single(secp, &sig, &msg, None, &pk, Some(&other), false)));
+						// batch of honest signatures, and the same batch with one message exchanged
+						let sk_b = sig_scalar(rng, secp);
+						let pk_b = PublicKey::from_secret_key(secp, &sk_b).unwrap();
+						let sig_b = aggsig::sign_single(secp, &msg2, &sk_b, None, Some(&pk_b)).unwrap();
+						sig_line(out, &mut stats, "ok-batch", n, Ok(aggsig::verify_batch(secp, &vec![sig.clone(), sig_b.clone()], &vec![msg.clone(), msg2.clone()], &vec![pk.clone(), pk_b.clone()])));
+						sig_line(out, &mut stats, "bad-batch-swapped-msgs", n, Ok(aggsig::verify_batch(secp, &vec![sig.clone(), sig_b.clone()], &vec![msg2.clone(), msg.clone()], &vec![pk.clone(), pk_b.clone()])));
+					}
+					Err(e) => sig_line(out, &mut stats, "ok-single", n, Err(format!("{:?}", e))),
+				}
+				// sign_with_blinding (the transaction builder's call) and sign_from_key_id (reward::output's)
+				let bf = BlindingFactor::from_secret_key(sk.clone());
+				let excess = secp.commit(0, sk.clone()).unwrap();
+				match aggsig::sign_with_blinding(secp, &msg, &bf, Some(&pk)) {
+					Ok(sig) => {
+						sig_line(out, &mut stats, "ok-blinding-from-commit", n, Ok(aggsig::verify_single_from_commit(secp, &sig, &msg, &excess).is_ok()));
+						let oc = secp.commit(0, sig_scalar(rng, secp)).unwrap();
+						sig_line(out, &mut stats, "bad-blinding-other-commit", n, Ok(aggsig::verify_single_from_commit(secp, &sig, &msg, &oc).is_ok()));
+					}
+					Err(e) => sig_line(out, &mut stats, "ok-blinding-from-commit", n, Err(format!("{:?}", e))),
+				}
+				let dk = kc.derive_key(amount, &id, SwitchCommitmentType::Regular).unwrap();
+				let dcommit = secp.commit(0, dk.clone()).unwrap();
+				let dpk = PublicKey::from_secret_key(secp, &dk).unwrap();
+				match aggsig::sign_from_key_id(secp, &kc, &msg, amount, &id, None, Some(&dpk)) {
+					Ok(sig) => {
+						sig_line(out, &mut stats, "ok-keyid-from-commit", n, Ok(aggsig::verify_single_from_commit(secp, &sig, &msg, &dcommit).is_ok()));
+						let k2 = kc.derive_key(amount, &id2, SwitchCommitmentType::Regular).unwrap();
+						let c2 = secp.commit(0, k2).unwrap();
+						sig_line(out, &mut stats, "bad-keyid-other-id", n, Ok(aggsig::verify_single_from_commit(secp, &sig, &msg, &c2).is_ok()));
+					}
+					Err(e) => sig_line(out, &mut stats, "ok-keyid-from-commit", n, Err(format!("{:?}", e))),
+				}
+			}
+			// ---- aggsig, 2..4 parties
+			if n % 2 == 0 {
+				let parties = rng.range(2, 4) as usize;
+				let sks: Vec<SecretKey> = (0..parties).map(|_| sig_scalar(rng, secp)).collect();
+				let nonces: Vec<SecretKey> = (0..parties).map(|_| sig_scalar(rng, secp)).collect();
+				let pks: Vec<PublicKey> = sks.iter().map(|k| PublicKey::from_secret_key(secp, k).unwrap()).collect();
+				let pns: Vec<PublicKey> = nonces.iter().map(|k| PublicKey::from_secret_key(secp, k).unwrap()).collect();
+				let pk_sum = PublicKey::from_combination(secp, pks.iter().collect()).unwrap();
+				let pn_sum = PublicKey::from_combination(secp, pns.iter().collect()).unwrap();
+				let parts: Vec<Result<secp::Signature, String>> = (0..parties)
+					.map(|i| aggsig::calculate_partial_sig(secp, &sks[i], &nonces[i], &pn_sum, Some(&pk_sum), &msg).map_err(|e| format!("{:?}", e)))
+					.collect();
+				if let Some(Err(e)) = parts.iter().find(|p| p.is_err()) {
+					sig_line(out, &mut stats, "ok-partial", n, Err(e.clone()));
+				} else {
+					let parts: Vec<secp::Signature> = parts.into_iter().map(|p| p.unwrap()).collect();
+					let all_ok = (0..parties).all(|i| aggsig::verify_partial_sig(secp, &parts[i], &pn_sum, &pks[i], Some(&pk_sum), &msg).is_ok());
+					sig_line(out, &mut stats, "ok-partial", n, Ok(all_ok));
+					sig_line(out, &mut stats, "bad-partial-other-signer", n, Ok(aggsig::verify_partial_sig(secp, &parts[0], &pn_sum, &pks[1], Some(&pk_sum), &msg).is_ok()));
+					sig_line(out, &mut stats, "bad-partial-other-msg", n, Ok(aggsig::verify_partial_sig(secp, &parts[0], &pn_sum, &pks[0], Some(&pk_sum), &msg2).is_ok()));
+					// the order in which the partial signatures are added does not matter
+					let mut order: Vec<usize> = (0..parties).collect();
+					for i in (1..order.len()).rev() {
+						let j = rng.below(i as u64 + 1) as usize;
+						order.swap(i, j);
+					}
+					let fin = aggsig::add_signatures(secp, parts.iter().collect(), &pn_sum);
+					let fin_p = aggsig::add_signatures(secp, order.iter().map(|i| &parts[*i]).collect(), &pn_sum);
+					match (fin, fin_p) {
+						(Ok(f), Ok(fp)) => {
+							sig_line(out, &mut stats, "ok-completed", n, Ok(aggsig::verify_completed_sig(secp, &f, &pk_sum, Some(&pk_sum), &msg).is_ok()));
+							sig_line(out, &mut stats, "ok-completed-any-order", n, Ok(f == fp));
+							sig_line(out, &mut stats, "bad-completed-other-msg", n, Ok(aggsig::verify_completed_sig(secp, &f, &pk_sum, Some(&pk_sum), &msg2).is_ok()));
+							sig_line(out, &mut stats, "bad-completed-one-key", n, Ok(aggsig::verify_completed_sig(secp, &f, &pks[0], Some(&pk_sum), &msg).is_ok()));
+							// one partial signature left out
+							if let Ok(short) = aggsig::add_signatures(secp, parts[1..].iter().collect(), &pn_sum) {
+								sig_line(out, &mut stats, "bad-completed-missing-partial", n, Ok(aggsig::verify_completed_sig(secp, &short, &pk_sum, Some(&pk_sum), &msg).is_ok()));
+							}
+						}
+						(a, b) => sig_line(out, &mut stats, "ok-completed", n, Err(format!("{:?} {:?}", a.err(), b.err()))),
+					}
+				}
+			}
+		}
+	}
+	for (k, (cnt, bad)) in &stats {
+		out.raw(&format!("#STAT sigs {}: {} cases, {} against the rule", k, cnt, bad));
+	}
+}
+
+// ---------------------------------------------------------------------------------------------
 // one hasher object reused across consecutive derivations
 // ---------------------------------------------------------------------------------------------
 
@@ -2342,6 +2568,7 @@ fn main() {
 		"history" => history(&mut out, &mut rng, thorough),
 		"seeds" => seeds(&mut out, &mut rng, thorough),
 		"hasher" => hasher(&mut out, &mut rng, thorough),
+		"sigs" => sigs(&mut out, &mut rng, thorough),
 		"malleable" => malleable(&mut out, &mut rng),
 		_ => {
 			eprintln!("unknown mode {}", mode);
